@@ -439,5 +439,11 @@ def run(ctx):
     run_r5(ctx, r5)
     r4 = ctx.rule("C13-R4", "fast/cold plumbing: cold tail calls, 'all matched' constants, continuation at offset+8, checked conversions", floor=10)
     run_r4(ctx, r4)
+    # R6: the scanners end a digit run at the first look-ahead answer None; that this answer means "the source ended or
+    # failed" - and not "a read was interrupted" or "a refill gave up" - is the read discipline of the reader (C09-R1:
+    # single read site, Interrupted retried in place, refill loops leave only on enough data or on request_more() == false)
+    from .c09 import run_r1 as c09_r1
+    r6 = ctx.rule("C13-R6", "a None answer of the look-ahead, at which the scanners end the run, is the end of the source: Interrupted is retried inside request_more, refills give up only at the end or on an error (shared with C09-R1)", floor=8)
+    c09_r1(ctx, r6)
     ctx.assume("the numeric value computed by the SWAR kernel and by the accumulation loops is not decided (value-level)")
     return "other", "overflow-flag def-use discipline, sibling agreement, exact scanning behaviour over byte classes, fast/cold plumbing", {}
